@@ -213,7 +213,7 @@ impl Sub for Histories {
              (incl. a long sentence and its prefix) on one reused worker; model: tokens after tokenize == tokens of a fresh worker, 0 tokens \
              after reset; non-trivial = a tokenize after resetting to a shorter/identical sentence or a repeated tokenize; distinct = hash(dictionary, history)".into()
         } else {
-            format!("{} workers over one shared &Tokenizer, each running an independent generated history on its own thread (scoped threads, started \
+            format!("{} workers over one shared &Tokenizer, each running an independent generated history 12 times over on its own thread (scoped threads, started \
              together); expectations computed single-threaded beforehand; non-trivial as in the sequential check; the harness does not own the schedule", self.threads)
         }
     }
@@ -253,7 +253,15 @@ impl Sub for Histories {
                         sc.spawn(move || {
                             let mut st = (0u64, false);
                             barrier.wait();
-                            let r = run_history(tokenizer, pool, expect, h, &mut st);
+                            // the history is repeated so that the workers overlap for longer
+                            // (a data race needs two workers inside the shared tokenizer at once)
+                            let mut r = Ok(());
+                            for _ in 0..12 {
+                                r = run_history(tokenizer, pool, expect, h, &mut st);
+                                if r.is_err() {
+                                    break;
+                                }
+                            }
                             (r, st)
                         })
                     })
